@@ -29,7 +29,7 @@ def init_setting(st):
     else:
         raise ValueError("unknown setting kind")
     pb = setting.periodic_boundaries
-    if not isinstance(pb, cls) or mod.periodic_boundaries is not pb or not mod.initialized():
+    if not isinstance(pb, cls) or mod.periodic_boundaries is not pb:
         return None, stored
     return pb, stored
 
